@@ -26,14 +26,14 @@ def get_func_in_module(module: str, qualname: str) -> Callable[..., Any]:
         InvalidTypeError if we the name isn't a function
     """
     func = get_name_in_module(module, qualname)
-    func = inspect.unwrap(func)
+    func = _unwrap(module, qualname, func)
     if isinstance(func, types.MethodType):
         func = func.__func__
     elif isinstance(func, property):
         if func.fget is not None:
             if (func.fset is None) and (func.fdel is None):
                 # The getter may itself be a functools.wraps-style wrapper.
-                func = inspect.unwrap(func.fget)
+                func = _unwrap(module, qualname, func.fget)
             else:
                 raise InvalidTypeError(
                     f"Property {module}.{qualname} has setter or deleter."
@@ -42,17 +42,28 @@ def get_func_in_module(module: str, qualname: str) -> Callable[..., Any]:
             raise InvalidTypeError(f"Property {module}.{qualname} is missing getter")
     elif cached_property and isinstance(func, cached_property):
         func = func.func
-    elif not isinstance(func, (types.FunctionType, types.BuiltinFunctionType)):
+    # Only Python functions are ever traced (not builtins, not other callables
+    # that a method, property getter or cached property may wrap).
+    if not isinstance(func, types.FunctionType):
         raise InvalidTypeError(
             f"{module}.{qualname} is of type '{type(func)}', not function."
         )
-    if getattr(func, "__qualname__", qualname) != qualname:
+    if func.__qualname__ != qualname or func.__module__ != module:
         # The name is bound to another function than the one that was traced,
-        # e.g. the wrapper of a decorator that does not use functools.wraps.
+        # e.g. the wrapper of a decorator that does not use functools.wraps, or
+        # a function generated or imported from elsewhere.
         raise InvalidTypeError(
-            f"{module}.{qualname} is bound to {func.__qualname__}, not to {qualname}."
+            f"{module}.{qualname} is bound to {func.__module__}.{func.__qualname__}."
         )
-    return func  # type: ignore[no-any-return]
+    return func
+
+
+def _unwrap(module: str, qualname: str, func: Any) -> Any:
+    try:
+        return inspect.unwrap(func)
+    except ValueError:
+        # e.g. an object whose __getattr__ answers every name, __wrapped__ included
+        raise InvalidTypeError(f"{module}.{qualname} cannot be unwrapped.")
 
 
 def get_name_in_module(
@@ -69,14 +80,16 @@ def get_name_in_module(
         attr_getter = getattr
     try:
         obj = importlib.import_module(module)
-    except ModuleNotFoundError:
+    except ImportError:
         raise NameLookupError("No module named '%s'" % (module,))
     walked = []
     for part in qualname.split("."):
         walked.append(part)
         try:
             obj = attr_getter(obj, part)
-        except AttributeError:
+        except Exception:
+            # AttributeError, or whatever a module-level __getattr__, a
+            # property or a descriptor on the way raises instead.
             raise NameLookupError(
                 "Module '%s' has no attribute '%s'" % (module, ".".join(walked))
             )
